@@ -244,4 +244,5 @@ def translate_v_ld(S, va, ispriv, iswrite):
         'level': z3.If(f_tr, tr_level, final), 'mva': mva, 'pa': pa, 'ns': ns_out, 'attrs': attrs,
         'unpred': z3.And(base_found, unpred_ttbr), 'start2': start2, 'final': final, 'use1': use1,
         'visited': (l1_visited, l2_visited, l2_tab),
+        'tables': ((l1_tab, d1), (l2_tab, d2)), 'attrindx': bits(D, 4, 2),
     }
